@@ -10,7 +10,7 @@ GUARD = 'LIBEAV_VERIF'
 BASE_DEFS = ['-D_DEFAULT_SOURCE', '-D_XOPEN_SOURCE=700', '-D_SVID_SOURCE', '-DHAVE_LIBIDN2',
              '-D' + GUARD]
 CHECK_FLAGS = ['--unwinding-assertions', '--pointer-overflow-check', '--signed-overflow-check',
-               '--conversion-check', '--undefined-shift-check', '--div-by-zero-check',
+               '--undefined-shift-check', '--div-by-zero-check',
                '--no-malloc-may-fail', '--drop-unused-functions']
 
 
